@@ -13,9 +13,9 @@ import argparse, concurrent.futures as cf, fcntl, glob, hashlib, json, os, re, s
 
 VERIF = os.path.dirname(os.path.abspath(__file__))
 REPO = os.environ.get("VERIF_REPO", "/repo")
-BUILD = os.path.join(VERIF, "build")
-SCRATCH = os.path.realpath(REPO) != "/repo"   # checking a scratch copy (mutant): keep its output away from the real evidence
+SCRATCH = os.path.realpath(REPO) != "/repo"   # checking a scratch copy (mutant): keep its output and builds away from the real ones
 OUT = os.path.join("/tmp", "verif-out-" + hashlib.sha256(os.path.realpath(REPO).encode()).hexdigest()[:10]) if SCRATCH else VERIF
+BUILD = os.path.join(OUT, "build")
 WORK = os.path.join(OUT, "work")
 NCPU = os.cpu_count() or 8
 CXX = "clang++"
